@@ -195,7 +195,7 @@ func reentrantChild(engine string) {
 
 func reentrantRecursion() {
 	for _, e := range both {
-		cmd := exec.Command(os.Args[0], "-child", "reentrant:"+e)
+		cmd := hx.Supervised(exec.Command(os.Args[0], "-child", "reentrant:"+e))
 		cmd.Env = append(os.Environ(), "GOMEMLIMIT=2GiB", "GOTRACEBACK=none")
 		out, err := cmd.CombinedOutput()
 		rep.Case("reentrant-recursion/" + e)
